@@ -69,38 +69,34 @@ Definition check_fail_keeps (adds : list (elt * nat)) : list tok :=
 (* "... and happens only if the producers that had started before it finished, minus what was consumed before it
    started, already fill the capacity":  at the return of a refused Add (event index j; its call at index i)
       #{ call add events of other calls before j }  -  sum { n | ret consume n before i }  >=  max_size *)
-Definition is_call_add (e : event) : bool := match snd e with OCallAdd _ => true | _ => false end.
-Definition consumed_ret (e : event) : nat := match snd e with ORetConsume n => n | _ => 0 end.
 Definition who_eqb (a b : who) : bool :=
   match a, b with Ctl, Ctl => true | Thr x, Thr y => Nat.eqb x y | _, _ => false end.
 
-(* scan: [before] = events already seen, latest first *)
-Fixpoint last_call_pos (w : who) (x : elt) (before : list event) : option nat :=
-  (* number of events that precede the latest "call add x" of thread w in [before] (latest first) *)
-  match before with
+(* one pass over the history: [pending] = (thread, element, elements consumed when the call started) of the calls seen so
+   far, latest first; [started] = number of "call add" events so far; [consumed] = sum of the "ret consume n" so far *)
+Fixpoint find_call (w : who) (x : elt) (pending : list (who * elt * nat)) : option nat :=
+  match pending with
   | [] => None
-  | e :: r => if who_eqb (fst e) w && match snd e with OCallAdd y => Nat.eqb x y | _ => false end
-              then Some (length r) else last_call_pos w x r
+  | (w', x', c) :: r => if who_eqb w' w && Nat.eqb x' x then Some c else find_call w x r
   end.
 
-Fixpoint fail_legit_scan (max_size : nat) (before : list event) (todo : list event) : bool :=
+Fixpoint fail_legit_scan (max_size : nat) (pending : list (who * elt * nat)) (started consumed : nat) (todo : list event) : bool :=
   match todo with
   | [] => true
   | e :: r =>
-      (match snd e with
-       | ORetAdd x false =>
-           match last_call_pos (fst e) x before with
-           | Some i =>
-               let started := length (filter is_call_add before) - 1 in
-               let consumed := sum (map consumed_ret (firstn i (rev before))) in
-               max_size + consumed <=? started
-           | None => false
-           end
-       | _ => true
-       end) && fail_legit_scan max_size (e :: before) r
+      match snd e with
+      | OCallAdd x => fail_legit_scan max_size ((fst e, x, consumed) :: pending) (S started) consumed r
+      | ORetConsume n => fail_legit_scan max_size pending started (consumed + n) r
+      | ORetAdd x false =>
+          match find_call (fst e) x pending with
+          | Some c0 => (max_size + c0 <=? started - 1) && fail_legit_scan max_size pending started consumed r
+          | None => false
+          end
+      | _ => fail_legit_scan max_size pending started consumed r
+      end
   end.
 Definition check_fail_legit (max_size : nat) (tr : list event) : list tok :=
-  check (fail_legit_scan max_size [] tr) "fail_legit:count".
+  check (fail_legit_scan max_size [] 0 0 tr) "fail_legit:count".
 
 (* "the number of queued elements never exceeds the capacity": every size() snapshot, and at the interface:
    (Adds that have returned true) - (elements of the Consume calls begun so far) <= max_size at every return *)
